@@ -359,7 +359,11 @@ class BaseMDASolver(BaseMDA):
         scaling_data = self._scaling_data
         ResidualScaling = self.ResidualScaling  # noqa: N806
 
-        if scaling == ResidualScaling.NO_SCALING:
+        if not residual.size:
+            # There is no variable to resolve, e.g. the disciplines are weakly coupled.
+            normed_residual = 0.0
+
+        elif scaling == ResidualScaling.NO_SCALING:
             normed_residual = float(norm(residual))
 
         elif scaling == ResidualScaling.INITIAL_RESIDUAL_NORM:
